@@ -32,14 +32,13 @@ Qed.
 
 Lemma data_node_segs_nf S :
   data_node_segs S =
-  let S1 := (removelast S ++ [drop_str (String.length Layout.METADOR_META_PREF) (last S "")])%list in
-  if String.eqb (last S1 "") "" && (Nat.ltb 2 (List.length S1) || negb (String.eqb (hd "" S1) ""))
+  let x := drop_str (String.length Layout.METADOR_META_PREF) (last S "") in
+  let S1 := (removelast S ++ [x])%list in
+  if String.eqb x "" && (Nat.ltb 2 (List.length S1) || negb (String.eqb (hd "" S1) ""))
   then removelast S1 else S1.
 Proof.
   unfold data_node_segs, set_last, last_seg. cbv zeta.
-  rewrite last_last.
-  destruct (drop_str (String.length Layout.METADOR_META_PREF) (last S "")) eqn:E; [reflexivity|].
-  reflexivity.
+  destruct (drop_str (String.length Layout.METADOR_META_PREF) (last S "")) eqn:E; reflexivity.
 Qed.
 
 Lemma existsb_ext' {X} (f g : X -> bool) l : (forall x, f x = g x) -> existsb f l = existsb g l.
